@@ -4,10 +4,12 @@ import (
 	stded25519 "crypto/ed25519"
 	"crypto/sha256"
 	"fmt"
+	abci "github.com/cometbft/cometbft/abci/types"
 	"math/big"
 	"math/rand"
 	"os"
 	"strings"
+	"time"
 
 	sdkmath "cosmossdk.io/math"
 	cosmosed25519 "github.com/cosmos/cosmos-sdk/crypto/keys/ed25519"
@@ -127,6 +129,21 @@ func c04Gen(r *rand.Rand, tier string) []Case {
 		n = 400
 	}
 	var out []Case
+	// fixed case: a grant made through the authz module itself and restricted to one validator; that validator is jailed;
+	// the contract spends part of the grant there and then names a validator the grant never covered
+	for _, method := range []string{"delegate", "undelegate"} {
+		out = append(out, Case{
+			fmt.Sprintf("scall 0 0 0 0 ? ? ? # method=delegate amt=abs:5000"),
+			fmt.Sprintf("sallow approve 3000 0 ? # method=%s native=1", method),
+			"jailval 0",
+			fmt.Sprintf("scall 0 1 0 0 ? ? ? # method=%s amt=abs:1000", method),
+			fmt.Sprintf("scall 0 1 0 1 ? ? ? # method=%s amt=abs:500", method),
+			fmt.Sprintf("scall 0 1 0 0 ? ? ? # method=%s amt=abs:700", method),
+			fmt.Sprintf("scall 0 1 0 2 ? ? ? # method=%s amt=abs:100", method),
+			"unjailval 0",
+			fmt.Sprintf("sallow revoke 0 - ? # method=%s", method),
+		})
+	}
 	for i := 0; i < n; i++ {
 		method := pick(r, []string{"delegate", "delegate", "undelegate"})
 		var c Case
@@ -284,7 +301,7 @@ func c04Exec(c Case) (outs []string, fails []Failure, tags []string) {
 					}
 					return false
 				})
-				if f[1] == "approve" {
+				if f[1] == "approve" && kv["native"] != "1" {
 					f[3] = strings.Join(now, ",")
 				}
 				f[4] = pre
@@ -326,9 +343,36 @@ func c04Exec(c Case) (outs []string, fails []Failure, tags []string) {
 				if err != nil {
 					panic(err)
 				}
-				res, _, _ := c07Send(puppetOrigin, evmtypes.EvmTxArgs{To: &stk, Input: in, GasLimit: 3_000_000, GasPrice: price})
+				var res abci.ResponseDeliverTx
+				if f[1] == "approve" && kv["native"] == "1" {
+					// the grant is made through the authz module (MsgGrant), restricted to the validators named on the line
+					var allow []sdk.ValAddress
+					for _, id := range strings.Split(f[3], ",") {
+						va, e := sdk.ValAddressFromBech32(c04Vals[vmIdx(id)%len(c04Vals)])
+						if e != nil {
+							panic(e)
+						}
+						allow = append(allow, va)
+					}
+					at := stakingtypes.AuthorizationType_AUTHORIZATION_TYPE_DELEGATE
+					if method == "undelegate" {
+						at = stakingtypes.AuthorizationType_AUTHORIZATION_TYPE_UNDELEGATE
+					}
+					coin := sdk.NewCoin(nw.GetDenom(), sdkmath.NewIntFromBigInt(amt))
+					sa, e := stakingtypes.NewStakeAuthorization(allow, nil, at, &coin)
+					if e != nil {
+						panic(e)
+					}
+					exp := nw.GetContext().BlockTime().Add(365 * 24 * time.Hour)
+					if e := app.AuthzKeeper.SaveGrant(nw.GetContext(), puppetAddr.Bytes(), kr.GetKey(puppetOrigin).AccAddr, sa, &exp); e != nil {
+						res.Code = 1
+					}
+					tags = append(tags, "native-grant")
+				} else {
+					res, _, _ = c07Send(puppetOrigin, evmtypes.EvmTxArgs{To: &stk, Input: in, GasLimit: 3_000_000, GasPrice: price})
+				}
 				okExec := res.Code == 0
-				if okExec {
+				if okExec && len(res.Data) > 0 {
 					if txr, e := evmtypes.DecodeTxResponse(res.Data); e == nil && txr.Failed() {
 						okExec = false
 						if os.Getenv("VERIF_DEBUG") != "" {
@@ -365,6 +409,26 @@ func c04Exec(c Case) (outs []string, fails []Failure, tags []string) {
 				out = st + " " + post
 				tags = append(tags, "allow-"+f[1]+"-"+st)
 				checkThird()
+			case "jailval", "unjailval":
+				out = "skip"
+				va, e := sdk.ValAddressFromBech32(c04Vals[vmIdx(f[1])%len(c04Vals)])
+				if e != nil {
+					panic(e)
+				}
+				v, found := app.StakingKeeper.GetValidator(nw.GetContext(), va)
+				if !found {
+					return
+				}
+				cons, e := v.GetConsAddr()
+				if e != nil {
+					panic(e)
+				}
+				if f[0] == "jailval" && !v.IsJailed() {
+					app.StakingKeeper.Jail(nw.GetContext(), cons)
+					tags = append(tags, "validator-jailed")
+				} else if f[0] == "unjailval" && v.IsJailed() {
+					app.StakingKeeper.Unjail(nw.GetContext(), cons)
+				}
 			case "sallow2":
 				// sallow2 <op> <arg> <allow> <grantU> <grantD> # order=ud|du — one call naming both message types
 				preU, paU := c04Grant("undelegate")
